@@ -324,6 +324,8 @@ class SimB(c07.Sim):
                 and w.a.c.connection_state.name == "ACTIVE" and w.b.c.connection_state.name == "ACTIVE"):
             evs.append(("logout", "A"))
             evs.append(("logout", "B"))
+            evs.append(("eod", "A"))
+            evs.append(("eod", "B"))
         if w.can_connect():
             evs.append(("rec",))
         return evs
@@ -418,6 +420,27 @@ class SimB(c07.Sim):
             w.loop.create_task(w.side(x).c.disconnect(ConnectionState.DISCONNECTED_WCONN_TODAY, logout_message=""))
             w.run()
             self.logon_seen = {"A": False, "B": False}
+            return self._post(ev)
+        if k == "eod":
+            # an application message on whose receipt the OTHER side's application ends the session from inside its
+            # on_message callback (Logout + close); nothing is in flight when it starts, nothing gets lost
+            x = ev[1]
+            y = "B" if x == "A" else "A"
+            self.nlogout += 1
+            self.graceful_clean = True
+            self.clean_from = {d: len(w.wire[d]) for d in ("AB", "BA")}
+            w.side(y).c.disconnect_filter = lambda m: str(m.get(11, "")).startswith("EOD")
+            mid = f"EOD{x.lower()}{self.nlogout}"
+            r = w.send(x, FIXMessage("D", {11: mid, 55: "X"}))
+            if r[0] == "ok":
+                self.accepted[x].append(mid)
+                self.order[x].append(mid)
+            d = "AB" if x == "A" else "BA"
+            while w.flight[d]:
+                w.deliver(d)
+            self.logon_seen = {"A": False, "B": False}
+            if w.side(y).c.connection_state.value > 3:
+                return self._v("application_disconnect_ignored", "from_on_message", "the application ends the session", ev)
             return self._post(ev)
         if k == "dlv":
             from mc.world2 import EOF_MARK
